@@ -418,6 +418,7 @@ def run(tier):
             ca.obligations = save
     res.floor("C08.R2", 5)
     rule_R3(res, prog)
+    rule_R4(res, prog)
     return res.finish()
 
 
@@ -660,3 +661,46 @@ def rule_R3(res, prog):
     if nb < 2:
         raise AnalysisBroken("C08.R3: only %d writers of ssl->fragIndex found in the TLS 1.3 reassembly functions" % nb)
     res.floor(rid, 4)
+
+
+def rule_R4(res, prog):
+    """RFC 5077 ticket from the ClientHello extension (peer bytes, any length up to 64 KiB): matrixUnlockSessionTicket reads
+    fixed offsets (key name, IV, len - 16 - 16 - MAC, MAC at the end) and therefore pins the length first - every path from
+    the entry to the first use of the ticket pointer crosses the equality outcome of a test of the length parameter against
+    matrixSessionTicketLen().  (That the pinned value itself is large enough for the fixed offsets is the writer's layout,
+    the same function that computes it; not decided here.)"""
+    rid = "C08.R4"
+    res.rule(rid, "matrixUnlockSessionTicket: the ticket length is pinned to matrixSessionTicketLen() before any byte of the ticket is used")
+    fn = prog.fn("matrixUnlockSessionTicket")
+    pin_p, len_p = fn.params[1], fn.params[2]
+
+    def pin_edge(b, k):
+        t = b.get("term")
+        if t is None or "c" not in t or len(b["succ"]) != 2:
+            return False
+        for (txt, tr, nd) in cu._cond_atoms(t["c"], k == 0):
+            nd = strip(nd)
+            if nd is None or nd.get("k") != "bin" or nd["op"] not in ("==", "!="):
+                continue
+            sides = [strip(nd["l"]), strip(nd["r"])]
+            has_len = any(x is not None and any(m.get("k") == "var" and m.get("id") == len_p.get("id") for m in walk(x)) for x in sides)
+            has_fn = any(x is not None and any(m.get("k") == "call" and m.get("fn") == "matrixSessionTicketLen" for m in walk(x)) for x in sides)
+            if has_len and has_fn and ((nd["op"] == "==") == bool(tr)):
+                return True
+        return False
+
+    def uses_ticket(x):
+        if x.get("k") == "decl" and "init" not in x:
+            return False
+        return any(m.get("k") == "var" and m.get("id") == pin_p.get("id") for m in walk(x))
+    esc = cu.escapes(fn, (fn.entry, None), lambda x: False, exempt_edge=pin_edge, target_expr=uses_ticket)
+    f_ = None
+    if esc is not None:
+        f_ = Finding(PROP, rid, fn.name, "ticket used before its length is pinned",
+                     "%s:%s matrixUnlockSessionTicket(): the ticket pointer `%s` is used at line %s on a path (via lines %s) that did not cross "
+                     "`%s == matrixSessionTicketLen()`: a shorter ticket makes len - 16 - 16 - MAC negative (a ~4 GiB HMAC / CBC "
+                     "decryption over the receive buffer)" % (fn.relfile, esc[-1][1], pin_p["n"], esc[-1][1], [p_[1] for p_ in esc[-5:-1]], len_p["n"]),
+                     file=fn.relfile, line=esc[-1][1])
+    res.instance(rid, "matrixUnlockSessionTicket: every use of `%s` lies behind %s == matrixSessionTicketLen()" % (pin_p["n"], len_p["n"]),
+                 esc is None, finding=f_)
+    res.floor(rid, 1)
